@@ -2,8 +2,10 @@ package rules
 
 import (
 	"fmt"
+	"go/constant"
 	"go/token"
 	"go/types"
+	"os"
 	"sort"
 	"strings"
 
@@ -158,7 +160,15 @@ func (e *Engine) refine(st *State, cv AbsVal, cond ssa.Value, truth bool) {
 				st.dead = true
 				return
 			}
-			st.setv(cv.cmpX, intVal(keep...))
+			nv := intVal(keep...)
+			if xv.atom != "" {
+				// the value was loaded from a field that still holds the same set: refine the field as well
+				if hv, ok := st.heap[xv.atom]; ok && hv.k == vInt && len(hv.ints) == len(xv.ints) {
+					st.heap[xv.atom] = nv
+				}
+				nv.atom = xv.atom
+			}
+			st.setv(cv.cmpX, nv)
 		case vMark:
 			// only a mark taken at the current position with no move since refines L
 			if xv.dlo == 0 && xv.dhi == 0 && xv.epoch == st.epoch && xv.fresh {
@@ -198,16 +208,23 @@ func (e *Engine) refine(st *State, cv AbsVal, cond ssa.Value, truth bool) {
 				}
 			}
 		case vAtomLen:
-			lo, hi := refineInterval(0, inf, cv.cmpOp, int(cv.cmpK), truth)
 			// the length of a lexer field does not change during a call: remember the decision
-			if pz, known := st.heap["pos:"+xv.atom].constInt(); known {
-				if (pz == 1 && hi < 1) || (pz == 0 && lo >= 1) {
-					st.dead = true
-				}
-			} else if lo >= 1 {
+			clo, chi := atomBounds(st, xv.atom)
+			nlo, nhi := refineInterval(clo, chi, cv.cmpOp, int(cv.cmpK), truth)
+			if nlo > nhi {
+				st.dead = true
+				return
+			}
+			if nlo >= 1 {
 				st.heap["pos:"+xv.atom] = intVal(1)
-			} else if hi < 1 {
+			} else if nhi < 1 {
 				st.heap["pos:"+xv.atom] = intVal(0)
+			}
+			if nlo > clo {
+				st.heap["lo:"+xv.atom] = intVal(int64(nlo))
+			}
+			if nhi < chi {
+				st.heap["hi:"+xv.atom] = intVal(int64(nhi))
 			}
 		case kHeapRef:
 			if (cv.cmpOp == "==") == truth {
@@ -640,6 +657,18 @@ func (e *Engine) call(fi *fnInfo, st *State, in *ssa.Call) []*State {
 			callee = fv.fn
 		}
 	}
+	if callee == nil && !cc.IsInvoke() && len(e.cfg.DynTargets) > 0 {
+		// call through the state stack: try every candidate state function
+		var outs []*State
+		for i, t := range e.cfg.DynTargets {
+			s := st
+			if i < len(e.cfg.DynTargets)-1 {
+				s = st.clone()
+			}
+			outs = append(outs, e.callKnown(fi, s, in, t)...)
+		}
+		return outs
+	}
 	if callee == nil {
 		if e.mayTouchCursor(cc) {
 			st.havocCursor()
@@ -654,33 +683,7 @@ func (e *Engine) call(fi *fnInfo, st *State, in *ssa.Call) []*State {
 		return e.atCall(fi, st, in, callee, kind)
 	}
 	if e.reaches(callee) && e.owner(callee) {
-		var args []AbsVal
-		for _, a := range cc.Args {
-			args = append(args, e.eval(st, a))
-		}
-		st.note("%s: call %s", e.prog.Position(in.Pos()), fnLabel(callee))
-		sums := e.summaries(callee, st, args)
-		var outs []*State
-		for i, x := range sums {
-			s := st
-			if i < len(sums)-1 {
-				s = st.clone()
-			}
-			e.applySummary(s, x, e.usesL(callee))
-			switch len(x.ret) {
-			case 0:
-				delete(s.vals, in)
-			case 1:
-				setRes(s, x.ret[0])
-			default:
-				s.setv(in, AbsVal{k: vTuple, elems: x.ret})
-			}
-			if x.at != nil {
-				s.note("%s: %s returns %s", e.prog.Position(x.at.Pos()), callee.Name(), retString(x.ret))
-			}
-			outs = append(outs, s)
-		}
-		return outs
+		return e.callKnown(fi, st, in, callee)
 	}
 	if (callee.Name() == "NewErrorLexer" || callee.Name() == "NewError") && core.RelPkg(fnPkg(callee)) == "parse" {
 		// reads Bytes()/Offset() of the cursor only (its body is checked by R-ERRCTOR)
@@ -691,7 +694,7 @@ func (e *Engine) call(fi *fnInfo, st *State, in *ssa.Call) []*State {
 	if e.reaches(callee) {
 		if e.opaqueOK {
 			st.havocCursor()
-			setRes(st, top)
+			setRes(st, e.enumResult(callee))
 			return []*State{st}
 		}
 		e.undecided(st, "R-CURSOR", "opaque cursor client "+fnLabel(callee)+" called from "+fnLabel(fi.fn), in.Pos(), "a function that uses the cursor is called but is outside the analysed owner types")
@@ -752,6 +755,84 @@ func (e *Engine) reaches(fn *ssa.Function) bool {
 		}
 	}
 	return false
+}
+
+// enumResult: abstract result of an opaque call: results of a module enum type may be any declared constant.
+func (e *Engine) enumResult(callee *ssa.Function) AbsVal {
+	res := callee.Signature.Results()
+	one := func(t types.Type) AbsVal {
+		n, ok := t.(*types.Named)
+		if !ok || n.Obj().Pkg() == nil || !core.InModule(n.Obj().Pkg()) {
+			return top
+		}
+		if b, ok := n.Underlying().(*types.Basic); !ok || b.Info()&types.IsInteger == 0 {
+			return top
+		}
+		pk := e.prog.ByPath[n.Obj().Pkg().Path()]
+		if pk == nil {
+			return top
+		}
+		var vals []int64
+		for _, c := range constsOfType(pk, n.Obj().Name()) {
+			if v, ok := constant.Int64Val(constant.ToInt(c)); ok {
+				vals = append(vals, v)
+			}
+		}
+		if len(vals) == 0 || len(vals) > 64 {
+			return top
+		}
+		return intVal(vals...)
+	}
+	switch res.Len() {
+	case 0:
+		return top
+	case 1:
+		return one(res.At(0).Type())
+	}
+	out := AbsVal{k: vTuple}
+	for i := 0; i < res.Len(); i++ {
+		out.elems = append(out.elems, one(res.At(i).Type()))
+	}
+	return out
+}
+
+// callKnown analyses (or replays the summary of) callee for the call instruction in.
+func (e *Engine) callKnown(fi *fnInfo, st *State, in *ssa.Call, callee *ssa.Function) []*State {
+	cc := &in.Call
+	setRes := func(s *State, v AbsVal) {
+		if v.k == vTop {
+			delete(s.vals, in)
+		} else {
+			s.setv(in, v)
+		}
+	}
+	var args []AbsVal
+	for _, a := range cc.Args {
+		args = append(args, e.eval(st, a))
+	}
+	st.note("%s: call %s", e.prog.Position(in.Pos()), fnLabel(callee))
+	sums := e.summaries(callee, st, args)
+	var outs []*State
+	for i, x := range sums {
+		s := st
+		if i < len(sums)-1 {
+			s = st.clone()
+		}
+		e.applySummary(s, x, e.usesL(callee))
+		switch len(x.ret) {
+		case 0:
+			delete(s.vals, in)
+		case 1:
+			setRes(s, x.ret[0])
+		default:
+			s.setv(in, AbsVal{k: vTuple, elems: x.ret})
+		}
+		if x.at != nil {
+			s.note("%s: %s returns %s", e.prog.Position(x.at.Pos()), callee.Name(), retString(x.ret))
+		}
+		outs = append(outs, s)
+	}
+	return outs
 }
 
 func retString(r []AbsVal) string {
@@ -1142,6 +1223,79 @@ type summary struct {
 	st  *State // projected exit state
 	ret []AbsVal
 	at  *ssa.Return
+	rw  *heapSet
+}
+
+// heapSet: abstract heap locations a function may read or write (transitively).
+type heapSet struct{ paths map[string]bool }
+
+func (h *heapSet) touches(key string) bool {
+	if h == nil {
+		return true
+	}
+	k := key
+	for _, pre := range []string{"pos:len(", "lo:len(", "hi:len("} {
+		if strings.HasPrefix(k, pre) {
+			k = strings.TrimSuffix(k[len(pre):], ")")
+		}
+	}
+	return h.paths[k]
+}
+
+func (e *Engine) heapRW(fn *ssa.Function) *heapSet {
+	if h, ok := e.rwCache[fn]; ok {
+		return h
+	}
+	h := &heapSet{paths: map[string]bool{}}
+	e.rwCache[fn] = h // cycle guard: partial set during the computation (call graphs here are acyclic)
+	for _, b := range fn.Blocks {
+		for _, in := range b.Instrs {
+			switch x := in.(type) {
+			case *ssa.FieldAddr:
+				if p, ok := heapPath(x); ok {
+					h.paths[p] = true
+				}
+			case ssa.CallInstruction:
+				f := x.Common().StaticCallee()
+				if _, isBuiltin := x.Common().Value.(*ssa.Builtin); isBuiltin {
+					continue
+				}
+				if f == nil {
+					if !x.Common().IsInvoke() {
+						// dynamic call: candidates of the state stack, or unknown
+						for _, t := range e.cfg.DynTargets {
+							if sub := e.heapRW(t); sub == nil {
+								h.paths["*"] = true
+							} else {
+								for p := range sub.paths {
+									h.paths[p] = true
+								}
+							}
+						}
+						if len(e.cfg.DynTargets) == 0 {
+							// function-typed parameter (bound scanner): conservatively everything of the owner types
+							h.paths["*"] = true
+						}
+					}
+					continue
+				}
+				if len(f.Blocks) > 0 && core.InModule(fnPkg(f)) {
+					if sub := e.heapRW(f); sub == nil {
+						h.paths["*"] = true
+					} else {
+						for p := range sub.paths {
+							h.paths[p] = true
+						}
+					}
+				}
+			}
+		}
+	}
+	if h.paths["*"] {
+		e.rwCache[fn] = nil
+		return nil
+	}
+	return h
 }
 
 func (e *Engine) usesL(fn *ssa.Function) bool {
@@ -1157,6 +1311,9 @@ func (e *Engine) usesL(fn *ssa.Function) bool {
 				continue
 			}
 			f := c.Common().StaticCallee()
+			if _, isBuiltin := c.Common().Value.(*ssa.Builtin); isBuiltin {
+				continue
+			}
 			if f == nil {
 				if !c.Common().IsInvoke() {
 					res = true // dynamic call (bound scanner): be conservative
@@ -1199,10 +1356,14 @@ func (e *Engine) summaries(callee *ssa.Function, st *State, args []AbsVal) []sum
 	for k, v := range st.atomPos {
 		proj.atomPos[k] = v
 	}
+	rw := e.heapRW(callee)
 	for k, v := range st.heap {
-		proj.heap[k] = v
+		if rw.touches(k) {
+			proj.heap[k] = v
+		}
 	}
 	proj.errSet, proj.havoc, proj.stale = st.errSet, st.havoc, st.stale
+	proj.coarse = st.coarse
 	proj.lex, proj.lexKnown = st.lex, st.lexKnown
 	proj.lastShift, proj.shifts, proj.skips = st.lastShift, 0, 0
 	// byte arguments keep their link to the input
@@ -1245,6 +1406,9 @@ func (e *Engine) summaries(callee *ssa.Function, st *State, args []AbsVal) []sum
 		return s
 	}
 	e.summMiss++
+	if engDebug && callee.Name() == "popToken" {
+		fmt.Fprintf(os.Stderr, "SIG %s RW %v\n", sig, rw)
+	}
 	exits := e.run(callee, proj, args)
 	var out []summary
 	for _, x := range exits {
@@ -1260,7 +1424,7 @@ func (e *Engine) summaries(callee *ssa.Function, st *State, args []AbsVal) []sum
 		}
 		// callee-local values are of no use to the caller
 		x.st.vals = map[ssa.Value]*AbsVal{}
-		out = append(out, summary{st: x.st, ret: x.ret, at: x.at})
+		out = append(out, summary{st: x.st, ret: x.ret, at: x.at, rw: rw})
 	}
 	m[sig] = out
 	return out
@@ -1369,7 +1533,16 @@ func (e *Engine) applySummary(s *State, x summary, usesL bool) {
 	for k, v := range ex.atomPos {
 		s.atomPos[k] = v
 	}
-	s.heap = make(map[string]AbsVal, len(ex.heap))
+	// heap: locations the callee may touch are taken from its exit state, the others are untouched
+	if x.rw != nil {
+		for k := range s.heap {
+			if x.rw.touches(k) {
+				delete(s.heap, k)
+			}
+		}
+	} else {
+		s.heap = make(map[string]AbsVal, len(ex.heap))
+	}
 	for k, v := range ex.heap {
 		s.heap[k] = v
 	}
